@@ -358,8 +358,6 @@ def cause_of(ctx, labels, fam=None, flags=()):
     stopped = sum(1 for l in labels if l[0] == 10) >= sum(1 for l in labels if l[0] == 8)
     if chosen and started and not stopped:
         race = True     # finishing the run stops the application before the deliver
-    if fam == "unbracketed-write" and not ctx:
-        return "other-session"
     if race:
         return "lifecycle-race"
     if exit_in_term:
